@@ -380,5 +380,14 @@ Definition final (st : state) : bool :=
   match s_mst st with MFinished => true | _ => false end
   && forallb (fun w => match w with WDone => true | _ => false end) (s_ws st).
 
+(* every thread is blocked in pthread_cond_wait / pthread_join or has ended: no pick is enabled *)
+Definition blocked_all (st : state) : bool :=
+  match s_mst st with MWaitPush _ | MWaitJoin _ | MFinished => true | _ => false end
+  && forallb (fun w => match w with WWaitPop | WSubWait _ _ | WDone => true | _ => false end) (s_ws st).
+
+(* the configurations of the real code: queue depths, ring sizes from the generated layer *)
+Definition real_cfg (k : kind) (N tdepth wdepth nb pb : Z) (nfull : nat) (last : bool) (nblocks : nat) (outs : list nat) : cfg :=
+  mkCfg k (Z.to_nat N) (Z.to_nat tdepth) (Z.to_nat wdepth) (Z.to_nat nb) (Z.to_nat pb) nfull last nblocks outs.
+
 (* what a sequential execution writes: the blocks in rank order *)
 Definition sequential_output (c : cfg) : list (list Z) := map (fun k => [Z.of_nat k]) (seq 0 (comp_blocks c)).
